@@ -100,6 +100,7 @@ class Decls:
             'Result': [('Ok', ['0']), ('Err', ['0'])],
             'ControlFlow': [('Continue', ['0']), ('Break', ['0'])],
             'Ordering': [('Less', []), ('Equal', []), ('Greater', [])],
+            'Value': [('Null', []), ('Bool', ['0']), ('Number', ['0']), ('String', ['0']), ('Array', ['0']), ('Object', ['0'])],
             'Unexpected': [('Bool', ['0']), ('Unsigned', ['0']), ('Signed', ['0']), ('Float', ['0']), ('Char', ['0']), ('Str', ['0']), ('Bytes', ['0']), ('Unit', []), ('Option', []), ('NewtypeStruct', []),
                            ('Seq', []), ('Map', []), ('Enum', []), ('UnitVariant', []), ('NewtypeVariant', []), ('TupleVariant', []), ('StructVariant', []), ('Other', ['0'])],
         })
@@ -273,10 +274,14 @@ class Program:
                 rest = hm.group(2)
                 rest = re.sub(r"<[^<>]*>", '', rest)      # drop generic args
                 rest = re.sub(r"<[^<>]*>", '', rest)
-                tm = re.match(r'^([\w:]+)\s+for\s+&?\s*(?:\'\w+\s+)?([\w:]+)', rest)
+                tm = re.match(r'^([\w:]+)\s+for\s+(&?)\s*(?:\'\w+\s+)?([\w:]+)', rest)
                 if tm:
-                    trait, ty = tm.group(1).split('::')[-1], tm.group(2).split('::')[-1]
-                    s.by_key[(trait, ty, meth)] = fn
+                    trait, ty = tm.group(1).split('::')[-1], tm.group(3).split('::')[-1]
+                    if tm.group(2):          # impl Trait for &T is a different impl than impl Trait for T
+                        s.by_key[(trait, '&' + ty, meth)] = fn
+                        s.by_key.setdefault((trait, ty, meth), fn)
+                    else:
+                        s.by_key[(trait, ty, meth)] = fn
                     s.by_key.setdefault(('*', ty, meth), fn)
                 else:
                     tm2 = re.match(r'^([\w:]+)', rest)
@@ -294,7 +299,10 @@ class Program:
         m = re.match(r'^<(.+) as (.+)>::(\w+)$', c)
         if m:
             ty, trait, meth = m.groups()
-            if ty.startswith('&'): return None       # std blanket impls for references -> models
+            if ty.startswith('&'):
+                base = re.sub(r"<.*>", '', ty).replace('&', '').replace('mut ', '')
+                base = re.sub(r"'\w+\s+", '', base).strip().split('::')[-1]
+                return s.by_key.get((re.sub(r"<.*>", '', trait).split('::')[-1], '&' + base, meth))      # crate impls for references; std blanket impls -> models
             ty = re.sub(r"<.*>", '', ty).replace('&', '').replace('mut ', '').strip().split('::')[-1]
             trait = re.sub(r"<.*>", '', trait).split('::')[-1]
             f = s.by_key.get((trait, ty, meth))
@@ -752,6 +760,7 @@ class PathExec:
         if c in ('std::f64::EPSILON', 'f64::EPSILON'): return F64(2.220446049250313e-16)
         if c in ('std::f64::MIN_POSITIVE', 'f64::MIN_POSITIVE'): return F64(2.2250738585072014e-308)
         if c in ('std::f64::MAX', 'f64::MAX'): return F64(1.7976931348623157e308)
+        if c in ('RangeFull', 'std::ops::RangeFull'): return Agg('struct', 'RangeFull', None, [])
         if c == 'i32::MIN': return Int(-(1 << 31) & 0xffffffff, 'i32')
         if c == 'i32::MAX': return Int((1 << 31) - 1, 'i32')
         pm = re.match(r'^(.*)::promoted\[(\d+)\]$', c)
